@@ -1,10 +1,10 @@
 /-
 C01 main theorem, layer 5 (with folds): the static certificate.
 
-`NodeCert W miss node vid L ss evs`: the sub-tree `node`, numbered `vid`, entered when the events `L`
+`NodeCert W node vid L ss evs`: the sub-tree `node`, numbered `vid`, entered when the events `L`
 are already recorded, is compiled to the vertex records of `W.comp` and to the stage list `ss`
 (Eid order = DFS pre-order; an edge stage or a fold stage) which records the events `evs`
-(`vtx vid` first).  `miss`: the node may be evaluated in a missing optional scope.
+(`vtx vid` first).
 -/
 import TrustfallModel.Proofs.InterpSpec4.SpecFold
 
@@ -31,11 +31,6 @@ def EdgeKindOK (W : World) (n : Name) (params : Params) (kind : Kind) (e : IREdg
   | .recurse d => ∃ r, e.recursive = some r ∧ r.depth = d ∧ 1 ≤ d ∧ RecConv W.D e r ∧
       ParamsAgreeRec W n params e.params
   | .fold _ => False
-
-/-- May the child of an edge of this kind be evaluated in a missing scope? -/
-def childMiss (miss : Bool) : Kind → Bool
-  | .optional => true
-  | _ => miss
 
 /-- The reference is not to something of this component (it must be imported). -/
 def NotLocal (W : World) : FieldRef → Prop
@@ -89,7 +84,7 @@ structure OutsOK (W : World) (vs : List Vid) : Prop where
 
 /-- The static facts about one fold `f` (source vertex `vid`), its component compiled from `child`
 with stage list `ssIn` recording `evsIn`. -/
-structure FoldFacts (W : World) (miss : Bool) (n : Name) (params : Params) (fds : List FDir)
+structure FoldFacts (W : World) (n : Name) (params : Params) (fds : List FDir)
     (child : QNode) (vid : Vid) (L : List Ev) (f : Fold) (ssIn : List Stage) (evsIn : List Ev) :
     Prop where
   lim : W.lim = false
@@ -107,8 +102,6 @@ structure FoldFacts (W : World) (miss : Bool) (n : Name) (params : Params) (fds 
   fk : W.FK f.eid = foldKeys f
   fouts : f.fouts.Perm (countOutNames fds)
   post : Forall2 (fun p flt => ArgOK W (TRefPost W vid L f.eid) p.1 p.2 flt) (countFilterPairs fds) f.post
-  /-- F-9 guard: a fold with post-filters is never evaluated in a missing scope -/
-  guard : f.post = [] ∨ miss = false
   root : f.component.root = f.toVid
   merge : mergeStages f.component.edges f.component.folds
       (f.component.edges.length + f.component.folds.length) = .ok ssIn
@@ -121,34 +114,34 @@ structure FoldFacts (W : World) (miss : Bool) (n : Name) (params : Params) (fds 
   ndIn : (evsIn.map evVid).Nodup
 
 mutual
-def NodeCert (W : World) (miss : Bool) : QNode → Vid → List Ev → List Stage → List Ev → Prop
+def NodeCert (W : World) : QNode → Vid → List Ev → List Stage → List Ev → Prop
   | .mk ct fields, vid, L, ss, evs =>
     ∃ V evs', evs = .vtx vid :: evs' ∧ W.comp.vertex? vid = some V ∧ V.vid = vid ∧ CoerceOK ct V ∧
       Forall2 (FilterOK W (TRefAt W vid L)) (specFilters fields) V.filters ∧
       W.TG vid = tagPairs fields ∧ W.OG vid = outPairs fields ∧
-      FieldsCert W miss fields vid (L ++ [.vtx vid]) ss evs'
-def FieldsCert (W : World) (miss : Bool) :
+      FieldsCert W fields vid (L ++ [.vtx vid]) ss evs'
+def FieldsCert (W : World) :
     List QField → Vid → List Ev → List Stage → List Ev → Prop
   | [], _, _, ss, evs => ss = [] ∧ evs = []
-  | .prop _ _ :: rest, vid, L, ss, evs => FieldsCert W miss rest vid L ss evs
+  | .prop _ _ :: rest, vid, L, ss, evs => FieldsCert W rest vid L ss evs
   | .edge n params kind child :: rest, vid, L, ss, evs =>
     match kind with
     | .fold fds =>
       ∃ f ssR evsR ssIn evsIn, ss = .fold f :: ssR ∧ evs = .fold f.eid :: evsR ∧
-        FoldFacts W miss n params fds child vid L f ssIn evsIn ∧
-        NodeCert (W.inner f) false child f.toVid [] ssIn evsIn ∧
-        FieldsCert W miss rest vid (L ++ [.fold f.eid]) ssR evsR
+        FoldFacts W n params fds child vid L f ssIn evsIn ∧
+        NodeCert (W.inner f) child f.toVid [] ssIn evsIn ∧
+        FieldsCert W rest vid (L ++ [.fold f.eid]) ssR evsR
     | _ =>
       ∃ e ssC ssR evsC evsR, ss = .edge e :: (ssC ++ ssR) ∧ evs = evsC ++ evsR ∧
         e.fromVid = vid ∧ (W.comp.vertex? vid).isSome ∧ e.name = n ∧ EdgeKindOK W n params kind e ∧
         ParamsAgree W n params e.params ∧
-        NodeCert W (childMiss miss kind) child e.toVid L ssC evsC ∧
-        FieldsCert W miss rest vid (L ++ evsC) ssR evsR
+        NodeCert W child e.toVid L ssC evsC ∧
+        FieldsCert W rest vid (L ++ evsC) ssR evsR
 end
 
 /-- What a node certificate says about the node's own vertex. -/
-theorem NodeCert.dest {W : World} {miss : Bool} {node : QNode} {vid : Vid} {L : List Ev}
-    {ss : List Stage} {evs : List Ev} (h : NodeCert W miss node vid L ss evs) :
+theorem NodeCert.dest {W : World} {node : QNode} {vid : Vid} {L : List Ev}
+    {ss : List Stage} {evs : List Ev} (h : NodeCert W node vid L ss evs) :
     ∃ V evs' sfs, evs = .vtx vid :: evs' ∧ W.comp.vertex? vid = some V ∧ V.vid = vid ∧
       Forall2 (FilterOK W (TRefAt W vid L)) sfs V.filters := by
   cases node with
